@@ -142,6 +142,15 @@ CHECKS = {
         design="§8 C14",
         technique="Lean 4 proof (permutation invariance) + L1/L2 twin differential on the real macros",
         note=TB + " Numeric reply ids and the order of type parameters of generic message types are positional (excluded / recorded)."),
+    "C19": dict(
+        text="Proof over the table of ALL quote!/parse_quote! templates of sylvia-derive, regenerated from the source on every run: no template names the framework or a "
+             "re-exported dependency by a literal crate path (everything goes through the #sylvia splice), and no template that has user generics in scope declares a helper "
+             "type parameter with a conventional name (single letter / plain word). What rustc's resolution makes of it is observed, not proved (partial): generated programs "
+             "(interfaces, replies with partial coverage, multitest helpers) are checked against a manifest importing the framework as `sv_renamed`, and one generic contract + "
+             "interface is checked per candidate parameter name (26 letters + 11 words, exhaustive).",
+        design="§8 C19",
+        technique="Lean 4 decide over a template table regenerated from source + rustc on renamed-dependency and per-name corpora",
+        note=TB + " Partial: name resolution is rustc's; the lifting from templates to emitted tokens rests on the crate producing tokens only through quote! (grepped each run)."),
 }
 
 ALL = ["C%02d" % i for i in range(1, 21)]
@@ -158,12 +167,12 @@ def main():
             "enable": "SYLVIA_VERIF_HARNESS=/verif/harness/hook/hook_main.rs cargo test --offline -p sylvia-derive --features verif-hook --lib -- verif_hook::verif_entry --exact",
             "baseline_off_cmd": "cd /repo && cargo test --workspace --no-fail-fast --offline",
             "source_commits": ["f0dc71d"],
-            "fix_commits": ["a51e7a3", "fead2e3", "dbb2669", "e4181bc", "dd80324", "43435f7"],
+            "fix_commits": ["a51e7a3", "fead2e3", "dbb2669", "e4181bc", "dd80324", "43435f7", "3dc7e41", "b235c27"],
             "add_only": True,
         },
         "engines": [
             {"name": "lean", "path": "lean/", "serves_properties": sorted(CHECKS), "kind_free_text": "Lean 4 model + theorems + svmodel line-protocol driver"},
-            {"name": "hook", "path": "harness/hook/", "serves_properties": ["C06", "C13", "C01", "C02", "C03", "C04", "C05", "C14", "C15", "C17", "C18"], "kind_free_text": "in-process macro expansion + source translator, compiled into sylvia-derive tests via the verif-hook feature (L1)"},
+            {"name": "hook", "path": "harness/hook/", "serves_properties": ["C06", "C13", "C01", "C02", "C03", "C04", "C05", "C14", "C15", "C17", "C18", "C19"], "kind_free_text": "in-process macro expansion + source translator, compiled into sylvia-derive tests via the verif-hook feature (L1)"},
             {"name": "rt", "path": "harness/rt/", "serves_properties": ["C05", "C01", "C11", "C20"], "kind_free_text": "Rust harness calling the real runtime library (L3)"},
             {"name": "corpus", "path": "harness/corpus/ + vlib/corpus.py", "serves_properties": ["C01", "C02", "C03", "C04", "C05", "C07", "C08", "C09", "C14"], "kind_free_text": "generated contracts compiled against /repo/sylvia with echo handlers (L2)"},
         ],
